@@ -86,9 +86,7 @@ theorem impl_reads_header (h : Header) (s : Streams) (p : PackInfo) (fs : List F
     (sizes : List Nat) (fi : FilesInfo) (hs : h.mainStreams = some s) (hfi : h.filesInfo = some fi)
     (wf : LinearStreams s p fs ss sizes) (rf : ReadableFiles fi) (pos : Nat) (bytes : Bytes)
     (hw : writeHeaderRaw true h pos = some bytes) :
-    (readNextHeader bytes).toOption.map (fun
-      | .raw h' => some h'
-      | _ => none) = some (some (readBackHeader p fs ss sizes fi)) := by
+    readNextHeader bytes = .ok (.raw (readBackHeader p fs ss sizes fi)) := by
   unfold writeHeaderRaw at hw
   rw [hs, hfi] at hw
   cases hm : writeStreams s with
@@ -128,7 +126,7 @@ theorem impl_reads_header (h : Header) (s : Streams) (p : PackInfo) (fs : List F
     rw [P.bind_ok (a := (some (readBackStreams p fs ss sizes), some 0x05)) (s' := _)]
     · simp only [if_true]
       rw [P.bind_ok (a := (some { files := fi.files.map readBackFile, emptyfiles := [] }, some 0)) (s' := [])]
-      · simp [readBackHeader, Except.map, Except.toOption]
+      · simp [readBackHeader, Except.map]
       · rw [P.bind_ok (hfl' _), P.bind_ok (read1_cons _ _)]
         rfl
     · rw [P.bind_ok (hst _), P.bind_ok (read1_cons _ _)]
@@ -184,9 +182,7 @@ theorem impl_reads_session {σ} (cfg : WConfig σ) (ms : List WMember) (H0 : Hea
     (hout : (sessionCompress cfg ms).1.out.length < 2 ^ 64)
     (hus : ∀ us, unpacksizesOf cfg.methodsMap ((sessionCompress cfg ms).1.chain.map (·.fed)) = some us → ∀ v ∈ us, v < 2 ^ 64)
     (hH : sessionHeader cfg ms = some H0) (hW : writeHeaderRaw true H0 pos = some hdr) :
-    ∃ H', (readNextHeader hdr).toOption.map (fun
-        | .raw h' => some h'
-        | _ => none) = some (some H') ∧
+    ∃ H', readNextHeader hdr = .ok (.raw H') ∧
       H'.filesInfo = some { files := sessionReadBackFiles ms, emptyfiles := [] } ∧
       (∃ st sub, H'.mainStreams = some st ∧ st.substreams = some sub ∧
         sub.numUnpack = [(dataMembers ms).length] ∧
